@@ -341,6 +341,20 @@ func verify(m protoreflect.Message, v *model.Msg, path string) error {
 	if len(seen) != len(v.Fields) {
 		return fmt.Errorf("%s: Range visited %d fields, model has %d populated", path, len(seen), len(v.Fields))
 	}
+	// "Range returns immediately if f returns false": stop at the first call and in the middle
+	for _, stopAt := range []int{1, (len(v.Fields) + 1) / 2} {
+		if stopAt < 1 || stopAt >= len(v.Fields) {
+			continue
+		}
+		calls := 0
+		m.Range(func(protoreflect.FieldDescriptor, protoreflect.Value) bool {
+			calls++
+			return calls < stopAt
+		})
+		if calls != stopAt {
+			return fmt.Errorf("%s: Range called f %d times although f returned false at call %d (%d populated fields)", path, calls, stopAt, len(v.Fields))
+		}
+	}
 	// every declared field: Has, Get (defaults / read-only empties)
 	fs := md.Fields()
 	for i := 0; i < fs.Len(); i++ {
